@@ -11,7 +11,7 @@ STRATEGIES = ["build", "block", "bfs", "dfs", "scc", "attr_seeds"]
 
 class C01(Machine):
     ID = "C01"
-    FAMILY_WEIGHTS = {"sparse": 3, "dense": 3, "canal": 1, "modular": 2, "maa": 3, "cascade": 1, "maa_cascade": 4, "degenerate": 1, "maa_deadpad": 1}
+    FAMILY_WEIGHTS = {"sparse": 3, "dense": 3, "canal": 1, "modular": 2, "maa": 3, "cascade": 1, "maa_cascade": 4, "degenerate": 1, "maa_deadpad": 1, "inputs_mix": 2}
     NMAX = {"quick": 6, "thorough": 8}
 
     def gen_params(self, sc, rng):
